@@ -32,8 +32,8 @@ def run(ck):
         ck.merge(r)
     ck.need("stub_annotations_checked", 1500)
     ck.need("existing_annotations_checked", 50)
-    ck.need("second_applications", 200)
-    ck.need("results_executed", 200)
+    ck.need("second_applications", 150)
+    ck.need("results_executed", 150)
     ck.need("cli_applies", 5)
     for f in ("partial-annotations", "decorated", "nested-def", "docstring", "future-import", "typing-import", "module-code", "nested-class"):
         ck.counters["feature:" + f] = 1 if f in ck.sets.get("source_features", ()) else 0
